@@ -65,6 +65,100 @@ func (*Out2Res) ResourceDefinition() meta.ResourceDefinitionSpec {
 	return meta.ResourceDefinitionSpec{Type: "O2", DefaultNamespace: "n1"}
 }
 
+// OutTRes: an output of the SAME resource type as the input, living in another namespace.
+type OutTRes struct{ Res }
+
+func newOutT(id, payload string) *OutTRes { return &OutTRes{Res: *newRes("n2", "T", id, payload)} }
+
+func (r *OutTRes) DeepCopy() resource.Resource { return &OutTRes{Res: Res{md: r.md, spec: r.spec}} } //nolint:ireturn
+
+func (*OutTRes) ResourceDefinition() meta.ResourceDefinitionSpec {
+	return meta.ResourceDefinitionSpec{Type: "T", DefaultNamespace: "n2"}
+}
+
+// runSameTypeTransform: a transform controller whose outputs have the input's type in another namespace. An output
+// held by a foreign finalizer while its input is torn down must be cleaned up once that finalizer goes away - the
+// controller has to be watching its own output kind for that, whatever the kind's type is.
+func runSameTypeTransform(t *testing.T) (problems []string) {
+	synctest.Test(t, func(t *testing.T) {
+		ctx, cancel := context.WithCancel(context.Background())
+		defer cancel()
+
+		st := state.WrapCore(namespaced.NewState(inmem.Build))
+
+		rt, err := cruntime.NewRuntime(st, zap.NewNop())
+		if err != nil {
+			t.Fatal(err)
+		}
+
+		if err := rt.RegisterController(transform.NewController(transform.Settings[*InRes, *OutTRes]{
+			Name:            tcName,
+			MapMetadataFunc: func(in *InRes) *OutTRes { return newOutT(in.Metadata().ID(), "") },
+			TransformFunc: func(_ context.Context, _ controller.Reader, _ *zap.Logger, in *InRes, o *OutTRes) error {
+				o.SetPayload("t:" + in.Payload())
+
+				return nil
+			},
+			FinalizerRemovalFunc: func(context.Context, controller.Reader, *zap.Logger, *InRes) error { return nil },
+		}, transform.WithInputFinalizers())); err != nil {
+			t.Fatal(err)
+		}
+
+		done := make(chan error, 1)
+
+		go func() { done <- rt.Run(ctx) }()
+
+		quiesce := func() {
+			time.Sleep(20 * time.Minute)
+			synctest.Wait()
+		}
+
+		inPtr := resource.NewMetadata("n1", "T", "a", resource.VersionUndefined)
+		outPtr := resource.NewMetadata("n2", "T", "a", resource.VersionUndefined)
+
+		if err := st.Create(ctx, newIn("a", "p1")); err != nil {
+			t.Fatal(err)
+		}
+
+		quiesce()
+
+		if o, err := st.Get(ctx, outPtr); err != nil || payloadOf(o) != "t:p1" {
+			problems = append(problems, fmt.Sprintf("missing-output: same-type transform: input n1/T/a has no output n2/T/a at quiescence (%v)", err))
+		} else {
+			if err := st.AddFinalizer(ctx, outPtr, "ofin"); err != nil {
+				t.Fatal(err)
+			}
+
+			if _, err := st.Teardown(ctx, inPtr); err != nil {
+				t.Fatal(err)
+			}
+
+			quiesce() // the controller has marked the output and waits for the foreign finalizer
+
+			if err := st.RemoveFinalizer(ctx, outPtr, "ofin"); err != nil {
+				t.Fatal(err)
+			}
+
+			quiesce()
+
+			if o, err := st.Get(ctx, outPtr); err == nil {
+				problems = append(problems, fmt.Sprintf("orphaned-output: same-type transform: output n2/T/a (phase %s, finalizers %v) is still there at quiescence although its input is torn down and no foreign finalizer holds it",
+					o.Metadata().Phase(), *o.Metadata().Finalizers()))
+			}
+
+			if in, err := st.Get(ctx, inPtr); err == nil && in.Metadata().Finalizers().Has(tcName) {
+				problems = append(problems, "finalizer-kept: same-type transform: the torn-down input still carries the controller's finalizer at quiescence")
+			}
+		}
+
+		cancel()
+		<-done
+		synctest.Wait()
+	})
+
+	return problems
+}
+
 // ---- recording state: the totally ordered log of committed writes ---------------------------------------
 
 type wEntry struct {
@@ -895,10 +989,18 @@ func runGenericProperty(t *testing.T, prop string, rule string, extra func(rep *
 func TestC06(t *testing.T) {
 	runGenericProperty(t, "C06", "the real transform.Controller / qtransform.QController (plain, ignore-tearing-down, ignore-teardown-until/while) inside a real Runtime under synctest, optionally with destroy.Controller on the inputs: random histories of create/update/teardown/destroy/re-create of inputs, "+
 		"foreign finalizers on inputs and outputs, transform durations 0..200ms, transient transform failures, concurrency 1-2; at every quiescence the oracle requires owned outputs == images of mapped inputs with the latest transformed content, no orphaned/stale output except ones held by foreign finalizers, no leftover finalizer on torn-down inputs whose output is gone; "+
-		"non-trivial = at least two of teardown/destroy/re-create/foreign finalizers/faults occurred; "+
+		"non-trivial = at least two of teardown/destroy/re-create/foreign finalizers/faults occurred; a transform with an extra output meeting a foreign leftover; a transform whose output kind has the input's type in another namespace; "+
 		"plus gated schedules of qtransform.QController.Reconcile on the real qruntime adapter (every runtime call held at a gate, environment operations within the property's assumptions in every gap, transform faults) ending with an undisturbed reconcile: replayed on GenCtl.q_step and the final state checked against GenCtlConv.converged; the same for transform.Controller.Run with two undisturbed cycles at the end (Transform.t_step)", func(rep *Report, dir string) {
 		gatedQPhase(t, "C06")(rep, dir)
 		gatedTransformPhase(t, "C06")(rep, dir)
+
+		// a transform whose output kind has the input's type (another namespace)
+		for _, p := range runSameTypeTransform(t) {
+			rep.violateKey(0, "same-type:"+strings.SplitN(p, ":", 2)[0], p, map[string]any{"same_type_transform": true})
+		}
+
+		rep.count("same-type-transform", true)
+		rep.hit("same_type_transform")
 	})
 }
 
